@@ -23,6 +23,12 @@ class AFA:
         self.nodes = []; self.memo = {}
         self.TRUE = self.mk(('true',)); self.FALSE = self.mk(('false',)); self.EPS = self.mk(('eps',))
         self.NONEMPTY = self.mk(('sym', ALL, self.TRUE))
+        self.FREE = None
+
+    def free(self):
+        """an uninterpreted predicate on suffixes: its value is chosen freely for every suffix (marks the end of a consumed prefix)"""
+        if self.FREE is None: self.FREE = self.mk(('free',))
+        return self.FREE
 
     def mk(self, n):
         i = self.memo.get(n)
@@ -168,7 +174,8 @@ def explore(a, roots, maxcols=3000000, batch=8192, want_witnesses=12):
             else:
                 state[n] = 2; order.append(n)
     # frontier: the nodes whose value in the column of the suffix is needed to compute the next column
-    front = sorted(set(res(n[2]) for n in a.nodes if n[0] == 'sym') | set(res(x) for pr in roots.values() for x in pr))
+    FREE = a.FREE
+    front = sorted(set(res(n[2]) for n in a.nodes if n[0] == 'sym') | set(res(x) for pr in roots.values() for x in pr) | ({FREE} if FREE is not None else set()))
     fidx = {n: i for i, n in enumerate(front)}
     F = len(front)
     rootpos = {name: (fidx[res(p)], fidx[res(r)]) for name, (p, r) in roots.items()}
@@ -181,11 +188,12 @@ def explore(a, roots, maxcols=3000000, batch=8192, want_witnesses=12):
             if a.nodes[n][0] in ('or', 'and', 'alias')]
     TRUE = a.TRUE; EPS = a.EPS
 
-    def eval_batch(cols, ci):
+    def eval_batch(cols, ci, freeval=False):
         """cols: (B, F) bool array of frontier values of the suffix columns; ci: class index or None for the end column"""
         B = cols.shape[0]
         v = np.zeros((N, B), dtype=bool)
         v[TRUE] = True
+        if FREE is not None and freeval: v[FREE] = True
         if ci is None: v[EPS] = True
         else:
             for n, kf in sym_by_class[ci]: v[n] = cols[:, kf]
@@ -207,17 +215,21 @@ def explore(a, roots, maxcols=3000000, batch=8192, want_witnesses=12):
     end = eval_batch(np.zeros((1, F), dtype=bool), None)
     store = [end[0]]; parent = [None]; index = {np.packbits(end[0]).tobytes(): 0}
     mismatches = []
+    frees = (False, True) if FREE is not None else (False,)
+    if FREE is not None:
+        end1 = eval_batch(np.zeros((1, F), dtype=bool), None, True)
+        index[np.packbits(end1[0]).tobytes()] = 1; store.append(end1[0]); parent.append(None)
     def check(i):
         row = store[i]
         for name, (pi, ri) in rootpos.items():
             if bool(row[pi]) != bool(row[ri]): mismatches.append((name, i, bool(row[pi]), bool(row[ri])))
-    check(0)
+    for i0 in range(len(store)): check(i0)
     done = 0
     while done < len(store):
         hi = min(len(store), done + batch)
         cols = np.array(store[done:hi], dtype=bool)
-        for ci in range(len(classes)):
-            nxt = eval_batch(cols, ci)
+        for ci, fv in [(c, f) for c in range(len(classes)) for f in frees]:
+            nxt = eval_batch(cols, ci, fv)
             packed = np.packbits(nxt, axis=1)
             for j in range(nxt.shape[0]):
                 key = packed[j].tobytes()
@@ -243,12 +255,9 @@ def compare(peg_expr, ref_expr, name='root', **kw):
     return explore(a, roots, **kw)
 
 
-def compare_peg(peg1, peg2, name='root', prefix=True, **kw):
-    """two PEG expressions: same accepted prefixes.  With prefix=True the comparison is on 'e matches a prefix and the rest is
-    arbitrary' for every split, i.e. Acc(e, K) for K = the language marking the end of the consumed prefix; realised by
-    comparing Acc(e1, X) with Acc(e2, X) for the fresh continuation X = "rest starts with byte 0xFF... " is not expressible in
-    general, so both are compared followed by eof and followed by an arbitrary rest."""
-    a = AFA(); P = Peg(a)
-    roots = {name + ' (whole input)': (P.acc(('seq', [peg1, ('eof',)]), a.TRUE), P.acc(('seq', [peg2, ('eof',)]), a.TRUE)),
-             name + ' (as a prefix)': (P.acc(peg1, a.TRUE), P.acc(peg2, a.TRUE))}
+def compare_peg(peg1, peg2, name='root', **kw):
+    """two PEG expressions used as prefix matchers: on every input both fail, or both succeed consuming the same prefix.
+    Realised with an uninterpreted continuation X (a free predicate on suffixes): Acc(e1, X) == Acc(e2, X) for every X."""
+    a = AFA(); P = Peg(a); X = a.free()
+    roots = {name: (P.acc(peg1, X), P.acc(peg2, X))}
     return explore(a, roots, **kw)
